@@ -50,3 +50,22 @@ def run(repo: str, out_dir: str, which_failed):
             res["replay_ran"] = ran
         return res
     return res
+
+
+def replay_file(repo: str, wf: str):
+    """replay a stored witness file (format of contracts/c03_replay.rs) on a scratch copy of the real store"""
+    res = dict(confirmed=False, replay_ran=False, witness_file=wf)
+    with kanix.Scratch(repo, "c03-replay") as sc:
+        os.makedirs(os.path.join(sc.ws, "lsmtk", "tests"), exist_ok=True)
+        shutil.copy(os.path.join(os.path.dirname(os.path.dirname(os.path.abspath(__file__))), "contracts", "c03_replay.rs"),
+                    os.path.join(sc.ws, "lsmtk", "tests", "c03_replay.rs"))
+        env = dict(os.environ, C03_WITNESS=wf, CARGO_NET_OFFLINE="true", CARGO_TARGET_DIR=os.path.join(sc.dir, "target"))
+        p = subprocess.run(["cargo", "test", "--offline", "-p", "lsmtk", "--test", "c03_replay", "--", "--nocapture"], cwd=sc.ws, env=env,
+                           stdout=subprocess.PIPE, stderr=subprocess.STDOUT, text=True, timeout=3600)
+        out = p.stdout
+        res["replay_rc"] = p.returncode
+        res["replay_output"] = "\n".join(l for l in out.split("\n") if re.search(r"C03-REPLAY|panicked|test result|assertion|left:|right:", l))[-3000:]
+        ran = "running 1 test" in out
+        res["confirmed"] = ran and p.returncode != 0 and "C03-REPLAY" in out and "test result: FAILED" in out
+        res["replay_ran"] = ran
+    return res
